@@ -52,9 +52,9 @@ theorem readR_prim (fuel : Nat) (wenv renv : Env) (ro : ROpts) (wp rp : Prim) (b
     (hw : NoPrimKeys wenv) :
     readR (fuel+2) wenv renv ro (.prim wp false none) (.prim rp false none) bs =
       Spec.resolveRead (fuel+2) wenv renv (.prim wp false none) (.prim rp false none) bs := by
-  have hm : Spec.matchesS (fuel+1) wenv renv (.prim wp false none) (.prim rp false none) =
+  have hm : Spec.matchesS wenv renv (.prim wp false none) (.prim rp false none) =
       (wp == rp || Spec.promotable wp rp) := by
-    simp [Spec.matchesS, Spec.matchesX, Spec.deref]
+    simp [Spec.matchesS, Spec.matchesX, Spec.matchFlat, Spec.deref]
   rw [readR, Spec.resolveRead, matchSchemas_prim fuel wenv renv wp rp hw, hm]
   cases hc : (wp == rp || Spec.promotable wp rp)
   · rfl
